@@ -2,7 +2,7 @@
 import core
 import gen
 from core import PANIC, ANY, opt, Some
-from props.common import default_encode, default_decode, split_range
+from props.common import thorough_aux, default_encode, default_decode, split_range
 
 PROP = 'C03'
 BIN = 'c03'
@@ -385,3 +385,6 @@ REQUIRED = ['zero divisor', 'MIN / -1', 'operand MIN', 'euclid adjustment taken'
 
 def floors(st, tier):
     return ['class %r never observed' % c for c in REQUIRED if st['classes'].get(c, 0) == 0]
+
+
+extra_passes = thorough_aux('props.c03', (), exh=True)
